@@ -54,6 +54,12 @@ type bthread struct {
 	results []string
 	handles []func() (*int, error)
 	pubOut  string
+	got     []gotVal // every result a receive function handed out, to be read again at the end
+}
+
+type gotVal struct {
+	ptr *int
+	val int
 }
 
 // RunBcast executes progs on a fresh broadcaster under the schedule produced by choose
@@ -157,6 +163,9 @@ func RunBcast(t *testing.T, progs [][]BOp, choose func(step int, runnable []int)
 							switch {
 							case err == nil && v != nil:
 								r = fmt.Sprintf("recv:got:%d", *v)
+								s.mu.Lock()
+								bt.got = append(bt.got, gotVal{v, *v})
+								s.mu.Unlock()
 							case errors.Is(err, utils.ErrClosed):
 								r = "recv:closed"
 							case errors.Is(err, context.Canceled):
@@ -238,6 +247,14 @@ func RunBcast(t *testing.T, progs [][]BOp, choose func(step int, runnable []int)
 		// implementation-side monitor: every value received was published on that key, at most once
 		if v := bcastMonitor(progs, bts, crashed, panicText); v != "" {
 			res.Violates = v
+		}
+		// a result handed out earlier is the caller's: later hand-offs do not change it
+		for i, bt := range bts {
+			for _, g := range bt.got {
+				if *g.ptr != g.val && res.Violates == "" {
+					res.Violates = fmt.Sprintf("the value %d that a receive function of thread %d returned reads %d after a later hand-off: two results share storage, so one published value shows up in two results and the earlier one is lost", g.val, i, *g.ptr)
+				}
+			}
 		}
 		res.Panic = panicText
 
